@@ -339,6 +339,7 @@ func runWorker(spec string, thorough bool, deadline time.Time) {
 }
 
 func main() {
+	explore.BeforeExec = []func(){cdi.VerifResetGlobals}
 	for i, a := range os.Args {
 		if a == "-worker" {
 			debug.SetGCPercent(800)
